@@ -9,6 +9,7 @@ package main
 // executed and no external solver is used.
 
 import (
+	"os"
 	"fmt"
 	"go/token"
 	"go/types"
@@ -971,7 +972,7 @@ func (s *scope) loadFacts(pr *proof, a Lin, x *ssa.UnOp) {
 // facts that dominate the call) — the "requires" side of an internal contract
 // — recursively up to depth 3.
 func (b *Bounds) Prove(fn *ssa.Function, at ssa.Instruction, mk func(s *scope, pr *proof) []Cons) (bool, string) {
-	return b.proveCtx(fn, at.Block(), mk, nil, 0)
+	return b.proveCtx(fn, at.Block(), mk, nil, 0, nil)
 }
 
 type ctxFrame struct {
@@ -1006,17 +1007,34 @@ func (b *Bounds) buildScopes(fn *ssa.Function, blk *ssa.BasicBlock, ctx []ctxFra
 	return s
 }
 
-func (b *Bounds) proveCtx(fn *ssa.Function, blk *ssa.BasicBlock, mk func(s *scope, pr *proof) []Cons, ctx []ctxFrame, depth int) (bool, string) {
+func (b *Bounds) proveCtx(fn *ssa.Function, blk *ssa.BasicBlock, mk func(s *scope, pr *proof) []Cons, ctx []ctxFrame, depth int, hyp func(s *scope, pr *proof)) (bool, string) {
 	pr := b.newProof()
 	s := b.buildScopes(fn, blk, ctx, pr)
 	var goals []Cons
 	if mk != nil {
 		goals = mk(s, pr)
 	}
+	if hyp != nil {
+		hyp(s, pr)
+	}
 	pr.expandAtoms()
 	ok := true
 	why := ""
 	if mk == nil {
+		if os.Getenv("OBFSVET_DEBUG") != "" {
+			for _, c := range pr.cons {
+				fmt.Println("DEBUG cons", c.L, "<= 0")
+			}
+			for _, sp := range pr.splits {
+				fmt.Println("DEBUG split", sp.key, len(sp.cases))
+				for _, cs := range sp.cases {
+					for _, c := range cs {
+						fmt.Println("DEBUG    ", c.L, "<= 0")
+					}
+					fmt.Println("DEBUG    --")
+				}
+			}
+		}
 		all := make([]int, len(pr.splits))
 		for i := range all {
 			all[i] = i
@@ -1056,7 +1074,7 @@ func (b *Bounds) proveCtx(fn *ssa.Function, blk *ssa.BasicBlock, mk func(s *scop
 		if cyc || cs.Caller == fn {
 			return false, why
 		}
-		if ok2, why2 := b.proveCtx(fn, blk, mk, nctx, depth+1); !ok2 {
+		if ok2, why2 := b.proveCtx(fn, blk, mk, nctx, depth+1, hyp); !ok2 {
 			return false, fmt.Sprintf("%s; in the context of the call at %s: %s", why, b.p.InstrPos(cs.Instr), why2)
 		}
 	}
@@ -1065,8 +1083,14 @@ func (b *Bounds) proveCtx(fn *ssa.Function, blk *ssa.BasicBlock, mk func(s *scop
 
 // Unreachable proves that the facts at block blk are contradictory (locally
 // or in the context of every call site).
+// RefuteWith proves that the facts at blk together with the hypotheses that
+// hyp adds are contradictory (locally or in the context of every call site).
+func (b *Bounds) RefuteWith(fn *ssa.Function, blk *ssa.BasicBlock, hyp func(s *scope, pr *proof)) (bool, string) {
+	return b.proveCtx(fn, blk, nil, nil, 0, hyp)
+}
+
 func (b *Bounds) Unreachable(fn *ssa.Function, blk *ssa.BasicBlock) (bool, string) {
-	return b.proveCtx(fn, blk, nil, nil, 0)
+	return b.proveCtx(fn, blk, nil, nil, 0, nil)
 }
 
 // relevantSplits selects the splits that share atoms (transitively) with the
